@@ -176,4 +176,16 @@ theorem M3.ext' {A B : M3 ℝ} (h1 : A.xx = B.xx) (h2 : A.xy = B.xy) (h3 : A.xz 
   cases A; cases B; simp_all
 
 
+
+theorem vol_translate (Ts : List (Tet ℝ)) (c : V3 ℝ) :
+    Spec.vol (Ts.map (Tet.map (· - c))) = Spec.vol Ts := by
+  rw [Spec.vol_eq, Spec.vol_eq, List.map_map]
+  congr 1
+  apply List.map_congr_left
+  intro T _
+  obtain ⟨⟨ax,ay,az⟩,⟨bx,b_y,bz⟩,⟨cx,cy,cz⟩,⟨dx,dy,dz⟩⟩ := T
+  obtain ⟨c1,c2,c3⟩ := c
+  simp only [Function.comp, Spec.tetVol]; unfold_model; ring
+
+
 end
